@@ -60,6 +60,18 @@ def env_runs(out, mode, envs, args, module="Trace_Env", parallel=16, chunk=30000
         chunks = vlib.split_chunks(files, od, "e%03d" % i, chunk)
         for c in chunks:
             penv[c] = pe
+        # records written after the driver changed HOME inside the process (--rehome): judged with the changed environment
+        for f in files:
+            f2 = f + ".phase2"
+            if os.path.exists(f2) and "--rehome" in args:
+                e2 = dict(e, HOME=args[list(args).index("--rehome") + 1])
+                pe2 = os.path.join(od, "penv2.json")
+                with open(pe2, "w") as fh:
+                    json.dump(dict(vars=[dict(n=list(k), v=list(v)) for k, v in sorted(e2.items())]), fh)
+                c2 = os.path.join(od, "e%03d.phase2.ndjson" % i)
+                os.rename(f2, c2)
+                penv[c2] = pe2
+                chunks.append(c2)
         return chunks
 
     allchunks = []
